@@ -21,24 +21,29 @@ import (
 // field.
 func init() { Registry["C18"] = &Check{Setup: c18Setup, Run: c18Run} }
 
-// rootChildBefore reports whether m's root-level ancestor is consulted before
-// the root child called target (the "higher-priority signature" exception).
+// c18Higher is the fixed set of root formats whose signature outranks tar: the
+// root children that precede tar in the pinned tree (tree.go:20-21, "tar sits
+// after exe/elf/ar and before the remaining root formats"). It is deliberately
+// NOT read from the running tree: an archive whose member name happens to start
+// with the signature of a format that is supposed to come after tar (BM, ID3,
+// BZh, ...) must still be reported as tar.
+var c18Higher = map[string]bool{
+	"image/x-xpixmap": true, "application/x-7z-compressed": true, "application/zip": true, "application/pdf": true,
+	"application/vnd.fdf": true, "application/x-ole-storage": true, "application/postscript": true,
+	"image/vnd.adobe.photoshop": true, "application/pkcs7-signature": true, "application/ogg": true, "image/png": true,
+	"image/jpeg": true, "image/jxl": true, "image/jp2": true, "image/jpx": true, "image/jpm": true, "image/jxs": true,
+	"image/gif": true, "image/webp": true, "application/vnd.microsoft.portable-executable": true, "application/x-elf": true,
+	"application/x-archive": true,
+}
+
+// rootChildBefore reports whether m's root-level ancestor is one of the formats
+// that outrank the target (the "higher-priority signature" exception).
 func rootChildBefore(m *mimetype.MIME, target string) bool {
 	ch := chain(m)
 	if len(ch) < 2 {
 		return false
 	}
-	top := ch[len(ch)-2]
-	nodes := mimetype.VerifNodes()
-	for _, ci := range nodes[0].Children {
-		if nodes[ci].Name == target {
-			return false
-		}
-		if nodes[ci].Name == top {
-			return true
-		}
-	}
-	return false
+	return c18Higher[ch[len(ch)-2]]
 }
 
 func c18PosEval(cs *core.Case) (bool, string, string) {
@@ -197,6 +202,55 @@ func c18Run(c *core.Ctx) {
 			}
 		}
 	}
+	// member names spelled from the signature dictionary: every printable
+	// string literal of the sources under test (2..24 bytes) starts a member
+	// name. Whatever signature it spells, the archive is a tar unless one of
+	// the formats that outrank tar claims it.
+	var litNames uint64
+	seenName := map[string]bool{}
+	for _, lit := range literals(c) {
+		if len(lit) < 2 || len(lit) > 24 || seenName[string(lit)] {
+			continue
+		}
+		printable := true
+		for _, b := range lit {
+			if b < 0x20 || b > 0x7e {
+				printable = false
+			}
+		}
+		if !printable {
+			continue
+		}
+		seenName[string(lit)] = true
+		if !c.Next() || c.Expired() {
+			continue
+		}
+		for _, f := range formats {
+			for _, name := range []string{string(lit) + "-notes/a.txt", string(lit)} {
+				if strings.HasSuffix(name, "/gpkg-1") {
+					continue // the documented exclusion
+				}
+				h := &tar.Header{Name: name, Mode: 0o644, Size: 3, Typeflag: tar.TypeReg, ModTime: mtimes[0]}
+				b, _ := buildTar(f, h)
+				if len(b) < 512 {
+					rejected++
+					continue
+				}
+				archives++
+				litNames++
+				c.R.States++
+				pos.In, pos.Strs[0], pos.Strs[1] = b, f.String(), fmt.Sprintf("%v name=%q", f, name)
+				for _, l := range []uint32{0, 512, 3072} {
+					pos.Limit = l
+					c.R.Transitions++
+					c.R.Evals++
+					c.Check(pos)
+				}
+				c.SampleCase("literal-member-names", pos)
+			}
+		}
+	}
+	c.Note("literal-member-names", litNames)
 	c.Note("archives-written", archives)
 	c.Note("combinations-refused-by-writer", rejected)
 	c.Note("distinct-first-blocks", distinct)
